@@ -82,6 +82,14 @@ def check_query(ctx, al, G, m, u, v, start, end):
 
 
 def graph_queries(ctx, dn, G, m, nodes, exhaustive):
+    # one graph with all its queries, under a wall-clock alarm (a library call that does not return within the
+    # deadline is abandoned and counted as skipped, never judged)
+    from ..core import case_deadline
+    with case_deadline(ctx, 40):
+        _graph_queries_body(ctx, dn, G, m, nodes, exhaustive)
+
+
+def _graph_queries_body(ctx, dn, G, m, nodes, exhaustive):
     import dynetx.algorithms as al
     rng = ctx.rng
     ctx.cases += 1
